@@ -131,6 +131,13 @@ func orderCases() []orderCase {
 	add("lonely-list-nil-elements", "§0&@at(§1)", "[nil, [5], nil]", "[0]")
 	add("thoughtful-receiver", "§0~.+(§1)", "1", "2")
 	add("thoughtful-failing-call", "§0~.at(§1, §2)", "1", "0", "0")
+	// chains continued on the next line, every additional context x main chain, with chain argument and argument
+	for _, ad := range []string{"", "&", "~", "="} {
+		add("multiline-chain-"+ad+"@", "§0\n  |"+ad+"@(§1)at(§2)", "[[1, 2]]", "[]", "[0]")
+		add("multiline-chain-"+ad+"$", "§0\n  |"+ad+"$(§1)+(§2)", "[1, 2]", "0", "1")
+		add("multiline-chain-"+ad+".", "§0\n  |"+ad+".(§1)at(§2)", "[5]", "0", "[0]")
+		add("multiline-literal-chain-"+ad+"@", "§0\n  |"+ad+"@(§1){|x| x}", "[[1, 2]]", "[]")
+	}
 	add("embedded-str", `"a#{§0}b#{§1}c#{§2}d"`, "1", "2", "3")
 	add("embedded-str-2", `"#{§0}#{§1}"`, "1", "2")
 	add("index", "§0[§1]", "[1, 2]", "0")
@@ -299,6 +306,9 @@ var programs = []prog{
 	{Name: "evalEnv", Src: "\"x := 1; y := 2; z := 3\".evalEnv.p"},
 	{Name: "evalEnv-items", Src: "\"x := 1; y := 2; z := 3\".evalEnv.items"},
 	{Name: "json-dec", Src: "JSON.dec(`{\"b\": 1, \"a\": [1, {\"d\": 2, \"c\": 3}], \"e\": {\"g\": 1, \"f\": 2}}`).p"},
+	// several members that a stricter decoder could reject: whatever is reported must not depend on the order the members are visited in
+	{Name: "json-dec-out-of-range-numbers", Src: "nil.try.{|u| JSON.dec(`{\"a\": 1e300, \"b\": 2e300, \"c\": -3e300, \"d\": {\"e\": 4e300, \"f\": 5e300}}`)}.A"},
+	{Name: "json-dec-odd-members", Src: "nil.try.{|u| `{\"a\": 9223372036854775808, \"b\": -9223372036854775809, \"c\": 1.5e-400, \"d\": \"\\ud800\"}`.decJSON}.A"},
 	{Name: "json-dec-keys", Src: "JSON.dec(`{\"b\": 1, \"a\": 2, \"c\": 3}`).keys"},
 	{Name: "obj-iteration", Src: "{b: 1, a: 2, c: 3}@{|k, v| k.p}"},
 	{Name: "obj-accessors", Src: "o := {b: 1, a: 2, _p: 3}\n[o.keys, o.values, o.items, o.keys(private?: true), o.A]"},
